@@ -1,10 +1,668 @@
-import ShkModel.Model.FuncSpec
-/-! # C11 — collected and computed variables (theorems under construction) -/
-namespace Shk.C11
-open Shk Shk.FuncSpec
+import ShkModel.Lemmas.Funcs
+import ShkModel.Lemmas.AudVals
+/-!
+# C11 — collected and computed variables hold exactly what the clauses say
 
-/-- `first N`: nil values are ignored -/
-theorem first_nil (n : Nat) (a : List Sc) : collectStep .first n a .nil = some a := by
-  simp [collectStep]
+1. `collects … first|last|top|bottom N` = `collectSpec`, for every N ≥ 1, every value sequence and
+   every split of the sequence; the spec's sort is a sorted permutation, so top/bottom are "the N
+   largest, descending / N smallest, ascending".
+2. the array functions meet `funcOk`; the scalar functions meet their definitions.
+3. `computes` holds the latest non-nil value.
+4. nothing but an assignment to the variable changes a computed / collected variable.
+5. an assignment is visible to every later member of the same round.
+
+Numbers are exact rationals (NaN / infinities are outside the model).
+-/
+namespace Shk.C11
+open Shk Shk.FuncSpec Shk.Aud Shk.Sort Shk.Collect Shk.Funcs Shk.AudVals
+
+/-! ## 1a. the specification's sort really sorts -/
+
+/-- `sortAsc` returns an ascending list … -/
+theorem sortAsc_sorted (l : List Rat) : (sortAsc l).Pairwise (· ≤ ·) := Sort.sortAsc_sorted l
+
+/-- … that is a permutation of its input -/
+theorem sortAsc_perm (l : List Rat) : (sortAsc l).Perm l := Sort.sortAsc_perm l
+
+/-- `sortDesc` returns a descending permutation of its input -/
+theorem sortDesc_sorted (l : List Rat) : (sortDesc l).Pairwise (· ≥ ·) := Sort.sortDesc_sorted l
+
+theorem sortDesc_perm (l : List Rat) : (sortDesc l).Perm l := Sort.sortDesc_perm l
+
+/-- and there is no other sorted permutation: `sortAsc l` is *the* ascending arrangement of `l` -/
+theorem sortAsc_unique (l r : List Rat) (hs : r.Pairwise (· ≤ ·)) (hp : r.Perm l) : r = sortAsc l :=
+  sorted_unique hs (Sort.sortAsc_sorted l) (hp.trans (Sort.sortAsc_perm l).symm)
+
+example : [(1 : Rat), 2, 2].Pairwise (· ≤ ·) ∧ [(1 : Rat), 2, 2].Perm [2, 1, 2] := by decide
+
+/-- `top N` keeps the N largest: every kept value dominates every dropped value -/
+theorem top_kept_dominates (l : List Rat) (n : Nat) :
+    ∀ a ∈ (sortDesc l).take n, ∀ b ∈ (sortDesc l).drop n, b ≤ a :=
+  take_drop_rel (Sort.sortDesc_sorted l) n
+
+/-- `bottom N` keeps the N smallest: every kept value is below every dropped value -/
+theorem bottom_kept_dominates (l : List Rat) (n : Nat) :
+    ∀ a ∈ (sortAsc l).take n, ∀ b ∈ (sortAsc l).drop n, a ≤ b :=
+  take_drop_rel (Sort.sortAsc_sorted l) n
+
+/-! ## 1b. the four aggregation modes
+
+`collectRun m n a xs` (Lemmas/Collect) = the successive `collectStep m n` calls on `xs` from the
+array `a`; `none` = one call reported an error. -/
+
+/-- `first N`: exactly the first N non-nil values, for every N (N ≥ 1 included) and every sequence -/
+theorem collect_first (n : Nat) (xs : List Sc) :
+    collectRun .first n [] xs = some (collectSpec .first n xs) := by
+  simpa [collectSpec] using
+    run_of_step .first n (fun _ => True) (fun pre x _ => step_first n pre x) [] xs (fun _ _ => trivial)
+
+/-- `last N`: exactly the last N non-nil values, for every N ≥ 1 -/
+theorem collect_last (n : Nat) (hn : 1 ≤ n) (xs : List Sc) :
+    collectRun .last n [] xs = some (collectSpec .last n xs) := by
+  simpa [collectSpec] using
+    run_of_step .last n (fun _ => True) (fun pre x _ => step_last n hn pre x) [] xs (fun _ _ => trivial)
+
+/-- without `N ≥ 1` the `last` statement is false (the parser refuses `last 0`) -/
+example : collectRun .last 0 [] [.num 1] ≠ some (collectSpec .last 0 [.num 1]) := by decide
+
+/-- `top N`: the N largest values in descending order (booleans count as 0/1), provided no
+value is a string -/
+theorem collect_top (n : Nat) (xs : List Sc) (hxs : ∀ x ∈ xs, Sc.isStr x = false) :
+    collectRun .top n [] xs = some (collectSpec .top n xs) := by
+  simpa [collectSpec, numsOfAll, sortDesc, sortAsc] using
+    run_of_step .top n (fun x => Sc.isStr x = false) (fun pre x hx => step_top n pre x hx) [] xs hxs
+
+/-- `bottom N`: the N smallest values in ascending order, provided no value is a string -/
+theorem collect_bottom (n : Nat) (xs : List Sc) (hxs : ∀ x ∈ xs, Sc.isStr x = false) :
+    collectRun .bottom n [] xs = some (collectSpec .bottom n xs) := by
+  simpa [collectSpec, numsOfAll, sortAsc] using
+    run_of_step .bottom n (fun x => Sc.isStr x = false) (fun pre x hx => step_bottom n pre x hx) [] xs hxs
+
+example : ∀ x ∈ [Sc.num 3, .nil, .bool true, .num (-7/2), .bool false], Sc.isStr x = false := by decide
+
+example : collectRun .top 2 [] [.num 3, .nil, .bool true, .num (-7/2), .num 5] = some [.num 5, .num 3] := by
+  decide +kernel
+
+/-- a string makes the `top` / `bottom` call return the error of the code, for every array … -/
+theorem collect_top_string_step (n : Nat) (a : List Sc) (s : String) :
+    collectStep .top n a (.str s) = none ∧ collectStep .bottom n a (.str s) = none := ⟨rfl, rfl⟩
+
+/-- … hence the guard of `collect_top` / `collect_bottom` is exact: the run succeeds iff no value is a
+string -/
+theorem collect_top_ok_iff (n : Nat) (xs : List Sc) :
+    (collectRun .top n [] xs).isSome = true ↔ ∀ x ∈ xs, Sc.isStr x = false := by
+  constructor
+  · intro h x hx
+    cases x with
+    | str s => rw [run_none_of_str .top (.inl rfl) n [] xs s hx] at h; cases h
+    | _ => rfl
+  · intro h; rw [collect_top n xs h]; rfl
+
+theorem collect_bottom_ok_iff (n : Nat) (xs : List Sc) :
+    (collectRun .bottom n [] xs).isSome = true ↔ ∀ x ∈ xs, Sc.isStr x = false := by
+  constructor
+  · intro h x hx
+    cases x with
+    | str s => rw [run_none_of_str .bottom (.inr rfl) n [] xs s hx] at h; cases h
+    | _ => rfl
+  · intro h; rw [collect_bottom n xs h]; rfl
+
+/-- `top N` spelled out without reference to any sorting function: the result is a descending list
+`K` of `min N (number of values)` numbers that, together with some rest `D`, is a rearrangement of
+the numeric values produced, every element of `K` dominating every element of `D`. -/
+theorem collect_top_char (n : Nat) (xs : List Sc) (hxs : ∀ x ∈ xs, Sc.isStr x = false) :
+    ∃ K D : List Rat, collectRun .top n [] xs = some (K.map Sc.num) ∧
+      K.Pairwise (· ≥ ·) ∧ (K ++ D).Perm (numsOfAll xs) ∧
+      K.length = min n (numsOfAll xs).length ∧ ∀ a ∈ K, ∀ b ∈ D, b ≤ a := by
+  refine ⟨(sortDesc (numsOfAll xs)).take n, (sortDesc (numsOfAll xs)).drop n,
+    collect_top n xs hxs, ?_, ?_, ?_, top_kept_dominates _ n⟩
+  · exact (Sort.sortDesc_sorted _).sublist (List.take_sublist _ _)
+  · rw [List.take_append_drop]; exact Sort.sortDesc_perm _
+  · rw [List.length_take, sortDesc_length]
+
+theorem collect_bottom_char (n : Nat) (xs : List Sc) (hxs : ∀ x ∈ xs, Sc.isStr x = false) :
+    ∃ K D : List Rat, collectRun .bottom n [] xs = some (K.map Sc.num) ∧
+      K.Pairwise (· ≤ ·) ∧ (K ++ D).Perm (numsOfAll xs) ∧
+      K.length = min n (numsOfAll xs).length ∧ ∀ a ∈ K, ∀ b ∈ D, a ≤ b := by
+  refine ⟨(sortAsc (numsOfAll xs)).take n, (sortAsc (numsOfAll xs)).drop n,
+    collect_bottom n xs hxs, ?_, ?_, ?_, bottom_kept_dominates _ n⟩
+  · exact (Sort.sortAsc_sorted _).sublist (List.take_sublist _ _)
+  · rw [List.take_append_drop]; exact Sort.sortAsc_perm _
+  · rw [List.length_take, sortAsc_length]
+
+/-- under the guard the values entering `top` / `bottom` are exactly the numeric views of the non-nil
+elements: nothing is lost by `numsOfAll`'s `filterMap` -/
+theorem numsOfAll_complete (xs : List Sc) (hxs : ∀ x ∈ xs, Sc.isStr x = false) :
+    (nonNil xs).mapM Sc.numOf = some (numsOfAll xs) := by
+  have h := (numsOf_isSome_iff xs).2 hxs
+  cases hn : numsOf xs with
+  | none => rw [hn] at h; cases h
+  | some ns => rw [← numsOf_def, hn, numsOf_eq_numsOfAll hn]
+
+/-- every split of the sequence into activation periods: continuing from the value held after `pre`
+with the values `xs` of a later period gives the value for `pre ++ xs` -/
+theorem collect_split (m : Mode) (n : Nat) (hn : 1 ≤ n) (pre xs : List Sc)
+    (hxs : m = .top ∨ m = .bottom → ∀ x ∈ xs, Sc.isStr x = false) :
+    collectRun m n (collectSpec m n pre) xs = some (collectSpec m n (pre ++ xs)) := by
+  cases m with
+  | single =>
+    induction xs with
+    | nil => simp [collectSpec]
+    | cons x xs ih => simpa [collectSpec, collectStep] using ih (by simp)
+  | first => exact run_of_step .first n (fun _ => True) (fun p x _ => step_first n p x) pre xs (fun _ _ => trivial)
+  | last => exact run_of_step .last n (fun _ => True) (fun p x _ => step_last n hn p x) pre xs (fun _ _ => trivial)
+  | top => exact run_of_step .top n _ (fun p x hx => step_top n p x hx) pre xs (hxs (.inl rfl))
+  | bottom => exact run_of_step .bottom n _ (fun p x hx => step_bottom n p x hx) pre xs (hxs (.inr rfl))
+
+/-- and the run itself does not care where the sequence is cut -/
+theorem collect_periods (m : Mode) (n : Nat) (a : List Sc) (xs ys : List Sc) :
+    collectRun m n a (xs ++ ys) = (collectRun m n a xs).bind fun a' => collectRun m n a' ys :=
+  run_append m n a xs ys
+
+/-- invariant: the array never exceeds N elements — for the specified value … -/
+theorem collect_length_spec (m : Mode) (n : Nat) (xs : List Sc) : (collectSpec m n xs).length ≤ n :=
+  spec_length m n xs
+
+/-- … and for every run from every array within the bound -/
+theorem collect_length (m : Mode) (n : Nat) (hn : 1 ≤ n) (a l : List Sc) (xs : List Sc)
+    (ha : a.length ≤ n) (h : collectRun m n a xs = some l) : l.length ≤ n :=
+  run_length m n hn a l xs ha h
+
+example : collectRun .bottom 2 [.num 1] [.num 3, .num 0, .nil] = some [.num 0, .num 1] := by
+  decide +kernel
+
+/-! ## 2. the functions -/
+
+/-- every array function of the model meets its specification, on every argument list
+(for `sum avg med min max sorted` the specification speaks about string-free arguments only;
+`sorted_spec` below states that case in full) -/
+theorem callFn_ok (f : String) (args : List Sc) (r : Val) (h : callFn f args = .ok r) :
+    funcOk f args r = true := by
+  unfold funcOk
+  split
+  · -- count
+    simp [callFn] at h; subst h; simp
+  · simp [callFn] at h; subst h; simp
+  · simp [callFn] at h; subst h; simp
+  · -- sum
+    simp only [callFn, numsOf_def] at h
+    simp only []
+    split at h
+    · cases h
+    · rename_i e; rw [e]; simp at h; subst h; simp
+    · rename_i ns hne e; rw [e]; simp at h; subst h
+      cases ns with
+      | nil => exact absurd rfl hne
+      | cons a t => simp [ratSum_eq]
+  · -- avg
+    simp only [callFn, numsOf_def] at h
+    simp only []
+    split at h
+    · cases h
+    · rename_i e; rw [e]; simp at h; subst h; simp
+    · rename_i ns hne e; rw [e]; simp at h; subst h
+      cases ns with
+      | nil => exact absurd rfl hne
+      | cons a t => simp [ratSum_eq]
+  · -- average
+    simp only [callFn, numsOf_def] at h
+    simp only []
+    split at h
+    · cases h
+    · rename_i e; rw [e]; simp at h; subst h; simp
+    · rename_i ns hne e; rw [e]; simp at h; subst h
+      cases ns with
+      | nil => exact absurd rfl hne
+      | cons a t => simp [ratSum_eq]
+  · -- min
+    simp only [callFn, numsOf_def] at h
+    simp only []
+    split at h
+    · cases h
+    · rename_i e; rw [e]; simp at h; subst h; simp
+    · rename_i n ns e; rw [e]; simp at h; subst h
+      have h1 := foldl_min_mem n ns
+      have h2 := foldl_min_le n ns
+      simp only [List.mem_cons] at h1
+      simp only [List.contains_eq_mem, List.mem_cons, Bool.and_eq_true, decide_eq_true_eq,
+        List.all_eq_true]
+      exact ⟨h1, fun x hx => h2 x (List.mem_cons.2 hx)⟩
+  · -- max
+    simp only [callFn, numsOf_def] at h
+    simp only []
+    split at h
+    · cases h
+    · rename_i e; rw [e]; simp at h; subst h; simp
+    · rename_i n ns e; rw [e]; simp at h; subst h
+      have h1 := foldl_max_mem n ns
+      have h2 := foldl_max_ge n ns
+      simp only [List.mem_cons] at h1
+      simp only [List.contains_eq_mem, List.mem_cons, Bool.and_eq_true, decide_eq_true_eq,
+        List.all_eq_true]
+      exact ⟨h1, fun x hx => h2 x (List.mem_cons.2 hx)⟩
+  · -- med
+    simp only [callFn, numsOf_def] at h
+    simp only []
+    split at h
+    · cases h
+    · rename_i e; rw [e]; simp at h; subst h; simp
+    · rename_i ns hne e; rw [e]
+      have hne' : ns ≠ [] := hne
+      have hm := isMedian_medOf ns hne'
+      cases ns with
+      | nil => exact absurd rfl hne'
+      | cons a t =>
+        simp only []
+        have : r = .sc (.num (medOf (sortAsc (a :: t)))) := by
+          simp only [medOf]; split at h <;> rename_i hp <;> simp [hp] at h ⊢ <;> exact h.symm
+        subst this; exact hm
+  · -- median
+    simp only [callFn, numsOf_def] at h
+    simp only []
+    split at h
+    · cases h
+    · rename_i e; rw [e]; simp at h; subst h; simp
+    · rename_i ns hne e; rw [e]
+      have hne' : ns ≠ [] := hne
+      have hm := isMedian_medOf ns hne'
+      cases ns with
+      | nil => exact absurd rfl hne'
+      | cons a t =>
+        simp only []
+        have : r = .sc (.num (medOf (sortAsc (a :: t)))) := by
+          simp only [medOf]; split at h <;> rename_i hp <;> simp [hp] at h ⊢ <;> exact h.symm
+        subst this; exact hm
+  · -- sorted
+    simp only [callFn] at h
+    simp only []
+    cases hn : numsOf args with
+    | none => rw [← numsOf_def, hn]
+    | some ns =>
+      rw [← numsOf_def, hn]
+      split at h
+      · rename_i he
+        have : args = [] := by simpa using he
+        subst this; simp at hn; subst hn; simp at h; subst h; simp
+      · simp at h; subst h
+        have hs := numsOf_sortSc hn
+        cases ns with
+        | nil =>
+          simp only []
+          have := numsOf_length hs
+          simp [sortAsc] at this
+          have hnil : nonNil (sortSc args) = [] := List.length_eq_zero_iff.1 this.symm
+          simp [hnil]
+        | cons a t =>
+          simp only []
+          rw [← numsOf_def, hs]
+          simp only [Bool.and_eq_true]
+          exact ⟨(isSortedAsc_iff _).2 (Sort.sortAsc_sorted _), (sameElems_iff _ _).2 (Sort.sortAsc_perm _)⟩
+  · rfl
+
+/-- the boolean predicates used by `funcOk "sorted"` mean "ascending" and "same multiset" -/
+theorem funcOk_sorted_meaning (a b : List Rat) :
+    (isSortedAsc a = true ↔ a.Pairwise (· ≤ ·)) ∧ (sameElems a b = true ↔ a.Perm b) :=
+  ⟨isSortedAsc_iff a, sameElems_iff a b⟩
+
+/-- `isMedian` is about the unique sorted arrangement: with `s` the ascending permutation of `xs`,
+`r` is the middle element (odd length) or the mean of the two middle elements (even length) -/
+theorem isMedian_meaning (r : Rat) (xs s : List Rat) (hs : s.Pairwise (· ≤ ·)) (hp : s.Perm xs) :
+    isMedian r xs = true ↔
+      (s.length % 2 = 1 ∧ s[(s.length - 1) / 2]? = some r) ∨
+      (s.length % 2 = 0 ∧ ∃ a b, s[s.length / 2 - 1]? = some a ∧ s[s.length / 2]? = some b ∧
+        r = (a + b) / 2) := by
+  rw [sortAsc_unique xs s hs hp]
+  simp only [isMedian]
+  generalize sortAsc xs = t
+  by_cases hpar : t.length % 2 = 1
+  · simp [hpar]
+    exact eq_comm
+  · have h0 : t.length % 2 = 0 := by omega
+    simp only [h0, Nat.zero_ne_one, false_and, true_and, false_or]
+    simp only [show ((0 : Nat) == 1) = false from rfl, Bool.false_eq_true, if_false]
+    cases t[t.length / 2 - 1]? <;> cases t[t.length / 2]? <;> simp
+
+/-- `sorted` in full, on arguments whose non-nil elements are numbers or booleans (`numsOf` succeeds):
+the result is an array, a permutation of the arguments, whose numeric view is the ascending
+arrangement of the numeric view of the arguments (nils come first and are ignored by the view). -/
+theorem sorted_spec (args : List Sc) (ns : List Rat) (hne : args ≠ []) (hn : numsOf args = some ns) :
+    ∃ r, callFn "sorted" args = .ok (.arr r) ∧ r.Perm args ∧
+      ∃ rs, numsOf r = some rs ∧ rs.Pairwise (· ≤ ·) ∧ rs.Perm ns := by
+  refine ⟨sortSc args, ?_, sortSc_perm args, sortAsc ns, numsOf_sortSc hn,
+    Sort.sortAsc_sorted ns, Sort.sortAsc_perm ns⟩
+  cases args with
+  | nil => exact absurd rfl hne
+  | cons a t => simp [callFn]
+
+example : numsOf [.num 3, .nil, .bool true, .num (1/2)] = some [3, 1, 1/2] := by decide +kernel
+
+/-- the guard of `sorted_spec` says exactly: no string among the arguments -/
+theorem numsOf_guard (args : List Sc) :
+    (∃ ns, numsOf args = some ns) ↔ ∀ x ∈ args, Sc.isStr x = false := by
+  rw [← numsOf_isSome_iff, Option.isSome_iff_exists]
+
+/-- empty or all-nil input: `count` is 0, every other array function is nil (`sorted` of a non-empty
+all-nil list returns those nils, i.e. an array without non-nil element) -/
+theorem callFn_empty (args : List Sc) (h : nonNil args = []) :
+    callFn "count" args = .ok (.sc (.num 0)) ∧
+    (∀ f ∈ ["first", "last", "sum", "avg", "average", "med", "median", "min", "max"],
+      callFn f args = .ok (.sc .nil)) ∧
+    (args = [] → callFn "sorted" args = .ok (.sc .nil)) ∧
+    (args ≠ [] → ∃ r, callFn "sorted" args = .ok (.arr r) ∧ nonNil r = []) := by
+  refine ⟨by simp [callFn, h], ?_, ?_, ?_⟩
+  · intro f hf
+    simp only [List.mem_cons, List.not_mem_nil, or_false] at hf
+    rcases hf with rfl | rfl | rfl | rfl | rfl | rfl | rfl | rfl | rfl <;> simp [callFn, numsOf, h]
+  · rintro rfl; rfl
+  · intro hne
+    refine ⟨sortSc args, ?_, ?_⟩
+    · cases args with
+      | nil => exact absurd rfl hne
+      | cons a t => simp [callFn]
+    · apply List.eq_nil_iff_forall_not_mem.2
+      intro x hx
+      rw [mem_nonNil, (sortSc_perm args).mem_iff] at hx
+      have : x ∈ nonNil args := mem_nonNil.2 hx
+      rw [h] at this; cases this
+
+example : nonNil [Sc.nil, .nil] = [] := by decide
+
+/-- explicit values, for reference: over the numeric view `ns ≠ []` of the non-nil arguments -/
+theorem callFn_values (args : List Sc) (n : Rat) (ns : List Rat) (hn : numsOf args = some (n :: ns)) :
+    callFn "count" args = .ok (.sc (.num ((n :: ns).length : Nat))) ∧
+    callFn "sum" args = .ok (.sc (.num ((n :: ns).foldr (· + ·) 0))) ∧
+    callFn "avg" args = .ok (.sc (.num ((n :: ns).foldr (· + ·) 0 / ((n :: ns).length : Nat)))) ∧
+    (∃ v, callFn "min" args = .ok (.sc (.num v)) ∧ v ∈ n :: ns ∧ ∀ x ∈ n :: ns, v ≤ x) ∧
+    (∃ v, callFn "max" args = .ok (.sc (.num v)) ∧ v ∈ n :: ns ∧ ∀ x ∈ n :: ns, x ≤ v) ∧
+    (∃ v, callFn "med" args = .ok (.sc (.num v)) ∧ isMedian v (n :: ns) = true) := by
+  refine ⟨?_, ?_, ?_, ⟨_, ?_, foldl_min_mem n ns, foldl_min_le n ns⟩,
+    ⟨_, ?_, foldl_max_mem n ns, foldl_max_ge n ns⟩, ⟨medOf (sortAsc (n :: ns)), ?_,
+      isMedian_medOf _ (by simp)⟩⟩
+  · simp [callFn, ← numsOf_length hn]
+  · simp [callFn, hn, ratSum_eq]
+  · simp [callFn, hn, ratSum_eq]
+  · simp [callFn, hn]
+  · simp [callFn, hn]
+  · simp only [callFn, hn, medOf]; split <;> rfl
+
+/-! ### scalar functions -/
+
+/-- `abs ceil floor round` of nil (or of nothing) is nil; of a number, the mathematical value:
+`abs x` is non-negative and `±x`; `floor x` / `ceil x` are the integers with
+`floor x ≤ x < floor x + 1`, `ceil x - 1 < x ≤ ceil x`. -/
+theorem scalar_nil (f : String) (hf : f ∈ ["abs", "ceil", "floor", "round"]) :
+    callFn f [] = .ok (.sc .nil) ∧ callFn f [.nil] = .ok (.sc .nil) := by
+  simp only [List.mem_cons, List.not_mem_nil, or_false] at hf
+  rcases hf with rfl | rfl | rfl | rfl <;> exact ⟨rfl, rfl⟩
+
+theorem abs_spec (x : Rat) :
+    ∃ r, callFn "abs" [.num x] = .ok (.sc (.num r)) ∧ 0 ≤ r ∧ (r = x ∨ r = -x) ∧ (0 ≤ x → r = x) := by
+  refine ⟨if 0 ≤ x then x else -x, by simp [callFn, scalarFn], ?_, ?_, ?_⟩
+  · split
+    · assumption
+    · rename_i h
+      have := Rat.not_le.1 h
+      simpa using Rat.neg_le_neg (Rat.le_of_lt this)
+  · split <;> simp
+  · intro h; simp [h]
+
+theorem floor_spec (x : Rat) :
+    ∃ k : Int, callFn "floor" [.num x] = .ok (.sc (.num k)) ∧ (k : Rat) ≤ x ∧ x < ((k + 1 : Int) : Rat) :=
+  ⟨x.floor, by simp [callFn, scalarFn], Rat.floor_le x, Rat.lt_floor_add_one x⟩
+
+theorem ceil_spec (x : Rat) :
+    ∃ k : Int, callFn "ceil" [.num x] = .ok (.sc (.num k)) ∧ x ≤ (k : Rat) ∧ (k : Rat) < x + 1 :=
+  ⟨x.ceil, by simp [callFn, scalarFn], Rat.le_ceil, Rat.ceil_lt⟩
+
+/-- `round` is the nearest integer, halves away from zero -/
+theorem round_spec (x : Rat) :
+    ∃ k : Int, callFn "round" [.num x] = .ok (.sc (.num k)) ∧
+      (0 ≤ x → x - 1/2 < (k : Rat) ∧ (k : Rat) ≤ x + 1/2) ∧
+      (x < 0 → x - 1/2 ≤ (k : Rat) ∧ (k : Rat) < x + 1/2) := by
+  by_cases h : 0 ≤ x
+  · refine ⟨(x + 1/2).floor, by simp [callFn, scalarFn, roundHalfAway, h], ?_, ?_⟩
+    · intro _
+      have h1 := Rat.floor_le (x + 1/2)
+      have h2 := Rat.lt_floor_add_one (x + 1/2)
+      rw [Rat.intCast_add] at h2
+      constructor <;> grind
+    · intro h'; exact absurd h (Rat.not_le.2 h')
+  · refine ⟨-((-x) + 1/2).floor, by simp [callFn, scalarFn, roundHalfAway, h], ?_, ?_⟩
+    · intro h'; exact absurd h' h
+    · intro _
+      have h1 := Rat.floor_le (-x + 1/2)
+      have h2 := Rat.lt_floor_add_one (-x + 1/2)
+      rw [Rat.intCast_add] at h2
+      rw [Rat.intCast_neg]
+      constructor <;> grind
+
+/-! ## 3. `computes` -/
+
+/-- the assignment of a `computes` clause when everything is in order: it is `setAndActivateVar` -/
+theorem assignOne_single (c : Cfg) (ts : Rat) (s : St) (a : Assign) (v : Val)
+    (hab : s.abort = none) (hd : hasDeps s a.expr = true) (he : eval s.vals a.expr = .ok v)
+    (hm : a.mode = .single) :
+    assignOne c ts s a = setVar c s ts (valTyp v) ⟨"", a.target⟩ v true := by
+  unfold assignOne; simp [hab, hd, he, hm]
+
+/-- `computes`: a non-nil result `v` is what the variable holds afterwards, the variable is
+marked activated, and no other variable changes; a nil result, or unsatisfied dependencies, leave
+the whole state (hence the previous value) untouched. -/
+theorem computes_latest (c : Cfg) (ts : Rat) (s : St) (a : Assign) (hm : a.mode = .single)
+    (hab : s.abort = none) :
+    (∀ v, hasDeps s a.expr = true → eval s.vals a.expr = .ok v → v.isNil = false →
+        (assignOne c ts s a).vals ⟨"", a.target⟩ = v ∧
+        (assignOne c ts s a).activated ⟨"", a.target⟩ = true ∧
+        (assignOne c ts s a).abort = none) ∧
+    (∀ v, hasDeps s a.expr = true → eval s.vals a.expr = .ok v → v.isNil = true →
+        assignOne c ts s a = s) ∧
+    (hasDeps s a.expr = false → assignOne c ts s a = s) ∧
+    (∀ w, w ≠ ⟨"", a.target⟩ → (assignOne c ts s a).vals w = s.vals w) := by
+  refine ⟨?_, ?_, ?_, ?_⟩
+  · intro v hd he hv
+    rw [assignOne_single c ts s a v hab hd he hm, setVar_vals _ _ _ _ _ _ _ hv,
+      setVar_activated _ _ _ _ _ _ _ hv, setVar_abort]
+    simp [hab]
+  · intro v hd he hv
+    rw [assignOne_single c ts s a v hab hd he hm, setVar_nil _ _ _ _ _ _ _ hv]
+  · intro hd; unfold assignOne; simp [hab, hd]
+  · intro w hw
+    exact (assignOne_ext (· = (⟨"", a.target⟩ : VarName)) c ts s a rfl).vals w hw
+
+/-- over any sequence of results `vs` (with their time stamps) written to a variable `x`, the
+variable ends up holding the latest non-nil one, or its old value if there is none -/
+theorem computes_holds_latest (c : Cfg) (x : VarName) (s : St) (vs : List (Rat × Val)) :
+    (vs.foldl (fun st p => setVar c st p.1 (valTyp p.2) x p.2 true) s).vals x =
+      (((vs.map (·.2)).reverse.find? fun v => !v.isNil).getD (s.vals x)) := by
+  induction vs generalizing s with
+  | nil => rfl
+  | cons p vs ih =>
+    rw [List.foldl_cons, ih]
+    simp only [List.map_cons, List.reverse_cons, List.find?_append]
+    cases hf : List.find? (fun v => !v.isNil) (List.map (·.2) vs).reverse with
+    | some w => simp
+    | none =>
+      simp only [Option.getD_none, Option.none_or, List.find?_cons, List.find?_nil]
+      cases hv : p.2.isNil with
+      | true => simp [setVar_nil _ _ _ _ _ _ _ hv]
+      | false => simp [setVar_vals _ _ _ _ _ _ _ hv]
+
+/-- a state and a clause that satisfy the hypotheses of `computes_latest` / `visible_same_round`:
+`x computes t + 1` at a moment where `t = 2` is known -/
+def exS : St := { activated := fun _ => true, vals := fun _ => .sc (.num 2) }
+def exA : Assign := ⟨"x", .bin .add (.var ⟨"", "t"⟩) (.lit (.num 1)), .single, 1⟩
+
+example : exS.abort = none ∧ hasDeps exS exA.expr = true ∧
+    eval exS.vals exA.expr = .ok (.sc (.num 3)) ∧ (Val.sc (.num 3)).isNil = false ∧
+    exA.mode = .single := by decide +kernel
+
+/-! ### the `collects` assignment keeps "holds the specified value of the history" -/
+
+/-- if a `collects` variable holds the specified value for the history `xs` of its expression and
+the expression now yields the scalar `x` (not a string for top/bottom), then after the assignment
+it holds the specified value for `xs ++ [x]` — the induction step over any run of the audition,
+whatever happens in between (section 4) and however the history is cut into periods. -/
+theorem collects_step (c : Cfg) (ts : Rat) (s : St) (a : Assign) (xs : List Sc) (x : Sc)
+    (hm : a.mode ≠ .single) (hn : 1 ≤ a.n) (hab : s.abort = none) (hd : hasDeps s a.expr = true)
+    (he : eval s.vals a.expr = .ok (.sc x))
+    (hx : a.mode = .top ∨ a.mode = .bottom → Sc.isStr x = false)
+    (hinv : curArray (s.vals ⟨"", a.target⟩) = collectSpec a.mode a.n xs) :
+    (assignOne c ts s a).vals ⟨"", a.target⟩ = .arr (collectSpec a.mode a.n (xs ++ [x])) ∧
+    (assignOne c ts s a).activated ⟨"", a.target⟩ = true ∧
+    (assignOne c ts s a).abort = none := by
+  have hstep : collectStep a.mode a.n (collectSpec a.mode a.n xs) x
+      = some (collectSpec a.mode a.n (xs ++ [x])) := by
+    have := collect_split a.mode a.n hn xs [x] (by
+      intro h y hy; simp at hy; subst hy; exact hx h)
+    simpa [collectRun_cons] using this
+  have : assignOne c ts s a =
+      setVar c s ts .event ⟨"", a.target⟩ (.arr (collectSpec a.mode a.n (xs ++ [x]))) true := by
+    unfold assignOne
+    simp only [hab, hd, he, hinv, hstep]
+    cases hmode : a.mode <;> simp_all
+  rw [this, setVar_vals _ _ _ _ _ _ _ rfl, setVar_activated _ _ _ _ _ _ _ rfl, setVar_abort]
+  simp [hab]
+
+/-- the invariant holds at the start (an unassigned variable is nil) and reads back unchanged -/
+theorem collects_init (m : Mode) (n : Nat) : curArray (.sc .nil) = collectSpec m n [] := by
+  cases m <;> simp [curArray, collectSpec, numsOfAll, sortDesc, sortAsc]
+
+theorem curArray_arr (l : List Sc) : curArray (.arr l) = l := rfl
+
+/-- a string reaching `top` / `bottom` is the code's evaluation error -/
+theorem collects_string (c : Cfg) (ts : Rat) (s : St) (a : Assign) (str : String)
+    (hm : a.mode = .top ∨ a.mode = .bottom) (hab : s.abort = none) (hd : hasDeps s a.expr = true)
+    (he : eval s.vals a.expr = .ok (.sc (.str str))) :
+    (assignOne c ts s a).abort = some .evalError ∧ (assignOne c ts s a).vals = s.vals := by
+  unfold assignOne
+  rcases hm with hm | hm <;> simp [hab, hd, he, hm, collectStep, Sc.numOf]
+
+/-! ## 4. persistence -/
+
+/-- the period brackets do not touch any variable -/
+theorem startPeriod_vals (s : St) (m : Member) : (startPeriod s m).vals = s.vals := rfl
+
+theorem endPeriod_vals (s : St) (ts : Rat) (m : Member) : (endPeriod s ts m).vals = s.vals := by
+  unfold endPeriod
+  split
+  · rfl
+  · unfold stopPeriod endJudge
+    cases m.expect <;> rfl
+
+/-- nor does the evaluation of the `expects` predicate -/
+theorem checkExpect_vals (s : St) (ts : Rat) (m : Member) : (checkExpect s ts m).vals = s.vals := by
+  funext w; exact (checkExpect_ext (fun _ => False) s ts m).vals w id
+
+/-- the head of a round assigns only `t`, `mood`, `moodt` and the round's samples: every other
+variable — in particular every computed / collected variable — keeps its value -/
+theorem beginRound_keeps (c : Cfg) (ts : Rat) (samples : List Sample) (s : St) (w : VarName)
+    (ht : w ≠ ⟨"", "t"⟩) (hm : w ≠ ⟨"", "mood"⟩) (hmt : w ≠ ⟨"", "moodt"⟩)
+    (hs : ∀ x ∈ samples, x.v ≠ w) : (beginRound c ts samples s).vals w = s.vals w :=
+  beginRound_vals c ts samples s w ht hm hmt hs
+
+/-- a member's visit (period start, inside, closing round, or no period at all) changes a variable
+only through that member's own assignments to it -/
+theorem visit_keeps (c : Cfg) (final : Bool) (ts : Rat) (s : St) (m : Member) (w : VarName)
+    (hw : ∀ a ∈ m.assigns, w ≠ ⟨"", a.target⟩) : (visit c final ts s m).vals w = s.vals w :=
+  (visit_ext (fun v => ∃ a ∈ m.assigns, v = ⟨"", a.target⟩) c final ts s m
+    (fun a ha => ⟨a, ha, rfl⟩)).vals w (fun ⟨a, ha, e⟩ => hw a ha e)
+
+/-- while a member is outside an activation period and its condition is false (or the final round
+comes), its visit changes nothing at all: what it collected stays -/
+theorem visit_inactive (c : Cfg) (final : Bool) (ts : Rat) (s : St) (m : Member)
+    (hcond : condOf final s m = some (.ok false) ∨ condOf final s m = none)
+    (hna : (s.aud m.name).auditing = false) : visit c final ts s m = s := by
+  unfold visit
+  rcases hcond with h | h <;> simp [h, hna]
+
+/-- a whole round: a variable that is neither `t`/`mood`/`moodt`, nor sampled in this round, nor
+the target of a clause of a member, keeps its value; and a variable that is a target changes only
+through `assignOne` on it (`visit_keeps`). -/
+theorem persist_across_periods (c : Cfg) (final : Bool) (ts : Rat) (samples : List Sample) (s : St)
+    (w : VarName) (ht : w ≠ ⟨"", "t"⟩) (hm : w ≠ ⟨"", "mood"⟩) (hmt : w ≠ ⟨"", "moodt"⟩)
+    (hs : ∀ x ∈ samples, x.v ≠ w) (hw : ∀ m ∈ c.members, ∀ a ∈ m.assigns, w ≠ ⟨"", a.target⟩) :
+    (round c final ts samples s).vals w = s.vals w := by
+  rw [round_eq]; split
+  · rfl
+  · rw [(roundFold_ext (fun v => ∃ m ∈ c.members, ∃ a ∈ m.assigns, v = ⟨"", a.target⟩) c final ts _
+      c.members (fun m hm a ha => ⟨m, hm, a, ha, rfl⟩)).vals w
+        (fun ⟨m, hm, a, ha, e⟩ => hw m hm a ha e)]
+    exact beginRound_vals c ts samples s w ht hm hmt hs
+
+/-- the members of a round other than the owners of the variable leave it alone: across the rounds in
+which its auditor is not visited or is inactive, a collected variable keeps its value -/
+theorem persist_other_members (c : Cfg) (final : Bool) (ts : Rat) (s : St) (ms : List Member)
+    (w : VarName) (hw : ∀ m ∈ ms, ∀ a ∈ m.assigns, w ≠ ⟨"", a.target⟩) :
+    (ms.foldl (roundStep c final ts) s).vals w = s.vals w :=
+  (roundFold_ext (fun v => ∃ m ∈ ms, ∃ a ∈ m.assigns, v = ⟨"", a.target⟩) c final ts s ms
+    (fun m hm a ha => ⟨m, hm, a, ha, rfl⟩)).vals w (fun ⟨m, hm, a, ha, e⟩ => hw m hm a ha e)
+
+example : (⟨"", "x"⟩ : VarName) ≠ ⟨"", "t"⟩ ∧ (⟨"", "x"⟩ : VarName) ≠ ⟨"", "mood"⟩ ∧
+    (⟨"", "x"⟩ : VarName) ≠ ⟨"", "moodt"⟩ ∧
+    ∀ x ∈ [(⟨.scalar, ⟨"a", "sig"⟩, .sc (.num 1)⟩ : Sample)], x.v ≠ ⟨"", "x"⟩ := by decide
+
+/-! ## 5. visibility inside the round -/
+
+/-- right after a successful assignment (non-nil result `v`) of `x` by a `computes` clause:
+`x` is activated and holds `v`; any expression whose only dependency is `x` has its dependencies
+satisfied; reading `x` yields `v`; and every auditor that mentions `x` is woken, i.e. will be
+visited when the `round` fold reaches it. -/
+theorem visible_same_round (c : Cfg) (final : Bool) (ts : Rat) (s : St) (a : Assign) (v : Val)
+    (hm : a.mode = .single) (hab : s.abort = none) (hd : hasDeps s a.expr = true)
+    (he : eval s.vals a.expr = .ok v) (hv : v.isNil = false) :
+    (∀ e : Expr, (∀ d ∈ e.deps, d = ⟨"", a.target⟩) → hasDeps (assignOne c ts s a) e = true) ∧
+    eval (assignOne c ts s a).vals (.var ⟨"", a.target⟩) = .ok v ∧
+    (∀ w ∈ c.members, (⟨"", a.target⟩ : VarName) ∈ w.mentions → w.isAuditor = true →
+      visited final (assignOne c ts s a) w = true) := by
+  rw [assignOne_single c ts s a v hab hd he hm]
+  refine ⟨?_, ?_, ?_⟩
+  · intro e hdeps
+    simp only [hasDeps, List.all_eq_true]
+    intro d hdm
+    rw [hdeps d hdm, setVar_activated _ _ _ _ _ _ _ hv]; simp
+  · simp [eval, setVar_vals _ _ _ _ _ _ _ hv]
+  · intro w hw hmen haud
+    simp [visited, haud, setVar_woke c s ts _ _ v true hv w hw hmen haud]
+
+/-- and it stays so for the rest of the round: after the remaining clauses of the same member and
+after any later members `ms` have had their turn — none of them re-assigning `x` — `x` still holds
+`v`, is still activated (so `hasDeps` holds for expressions depending on `x` only), and the auditors
+mentioning `x` are still woken.  `s1` is any state in which `x` holds `v`, e.g. the one of
+`visible_same_round`. -/
+theorem visible_later_members (c : Cfg) (final : Bool) (ts : Rat) (s1 : St) (x : VarName) (v : Val)
+    (rest : List Assign) (m0 : Member) (ms : List Member)
+    (hrest : ∀ b ∈ rest, x ≠ ⟨"", b.target⟩) (hms : ∀ m ∈ ms, ∀ b ∈ m.assigns, x ≠ ⟨"", b.target⟩)
+    (hval : s1.vals x = v) (hact : s1.activated x = true) :
+    let s2 := ms.foldl (roundStep c final ts) (checkExpect (assignAll c ts s1 rest) ts m0)
+    s2.vals x = v ∧ eval s2.vals (.var x) = .ok v ∧
+    (∀ e : Expr, (∀ d ∈ e.deps, d = x) → hasDeps s2 e = true) ∧
+    (∀ w : Member, (s1.aud w.name).activated = true → (s2.aud w.name).activated = true) := by
+  intro s2
+  have hext : Ext (fun w => x ≠ w) s1 s2 :=
+    ((assignAll_ext _ c ts s1 rest (fun b hb => hrest b hb)).trans
+      (checkExpect_ext _ _ ts m0)).trans
+      (roundFold_ext _ c final ts _ ms (fun m hm b hb => hms m hm b hb))
+  have hv2 : s2.vals x = v := by rw [hext.vals x (fun h => h rfl)]; exact hval
+  refine ⟨hv2, by simp [eval, hv2], ?_, fun w hw => hext.woke _ hw⟩
+  intro e hdeps
+  simp only [hasDeps, List.all_eq_true]
+  intro d hdm
+  rw [hdeps d hdm]; exact hext.act x hact
+
+/-- `round` is the fold of `roundStep` (one member's turn) over the audience, after `beginRound` -/
+theorem round_is_fold (c : Cfg) (final : Bool) (ts : Rat) (samples : List Sample) (s : St)
+    (h : s.abort = none) :
+    round c final ts samples s = c.members.foldl (roundStep c final ts) (beginRound c ts samples s) := by
+  rw [round_eq]; simp [h]
+
+/-- a chain of dependent clauses: `y computes x + 1` in a later member sees the `x` computed earlier
+in the same round.  Concrete instance of the hypotheses (member `m2` mentions `x`). -/
+def exM2 : Member :=
+  { name := "m2", cond := .lit (.bool true),
+    assigns := [⟨"y", .bin .add (.var ⟨"", "x"⟩) (.lit (.num 1)), .single, 1⟩],
+    expect := none, watches := [] }
+
+example : (⟨"", exA.target⟩ : VarName) ∈ exM2.mentions ∧ exM2.isAuditor = true ∧
+    (∀ d ∈ (Expr.bin .add (.var ⟨"", "x"⟩) (.lit (.num 1))).deps, d = ⟨"", exA.target⟩) := by decide
 
 end Shk.C11
